@@ -288,7 +288,8 @@ def check(prop: str, tier: str, seed: int) -> int:
                 fam_ = OBJECTS[(a, b)[who]][0]
                 ref = {"ET": [[47510, 47510], [47589, 47600], [45356, 45356]], "DT": [[40326, 40326], [40328, 40329], [40336, 40336]]}.get(fam_)
                 if ref:
-                    jobs[-1]["inv"][who]["sim"]["refused"] = rnd2.sample(ref, rnd2.randint(1, len(ref)))
+                    # ... or does not answer them at all (one time in three)
+                    jobs[-1]["inv"][who]["sim"]["silent" if rnd2.random() < 1 / 3 else "refused"] = rnd2.sample(ref, rnd2.randint(1, len(ref)))
     # directed jobs: short sequences around the eco-mode groups with every combination of prior group contents, all shuffles
     rd = {"api": "read_setting", "args": ["eco_mode_1"]}
     dseqs = [[rd], [{"api": "set_operation_mode", "args": [{"opmode": 98}, 40, 60]}], [rd, {"api": "get_operation_mode"}],
